@@ -477,7 +477,8 @@ func (e *Exec) evalGhostBuiltin(st *State, call *ast.CallExpr, name string) Term
 			// evaluated at a call site of the function whose contract mentions its own call history
 			return e.Ctx.Fresh("called_"+sanitize(name), SBool)
 		}
-		e.unsupported(call.Pos(), "__called(%q): no such call in the function", name)
+		// the function contains no call of that name: it was never called (a clause that requires the call then fails
+		// as an obligation, by its own name, instead of being reported as a hint mismatch)
 		return False
 	case "__lastret", "__lastretT":
 		tv, _ := e.tvOf(call.Args[0])
